@@ -18,7 +18,7 @@ SPEC = dict(
     lean_targets=["SwayVerif.Props.C24"], audit="SwayVerif/Audit/C24.lean",
     theorems=["C24_no_stuck_waiter_cfg", "C24_no_stuck_waiter", "C24_latest_compiled_cfg", "C24_latest_compiled",
               "C24_tree_is_fixed", "quiescent_iff_only_spawn", "C24_orig_stuck_waiter", "C24_orig_stuck_waiter_late_store", "C24_orig_lost_edit",
-              "C24_orig_lost_edit_open_then_change", "C24_openedFirst_needed"],
+              "C24_orig_lost_edit_open_then_change", "C24_early_store_stuck", "C24_openedFirst_needed"],
     gen=[gen_shape],
     steps=[dict(bin="sv_c24", area="c24", n_quick=18, n_thorough=300, corpus="corpus/c24.txt",
                 dist_keys=("accepted", "handlers", "aborted", "waited", "q", "cfg", "len"),
@@ -31,7 +31,8 @@ SPEC = dict(
          "last_compilation_state) is a held point; the scheduler lets exactly one thread pass one point at a time, "
          "switching handlers only where the real server can (handler future Pending or finished), the worker "
          "anywhere. corpus = the four attack schedules of the negation proofs (adapted to the repaired code) + "
-         "cancel/drain schedules; then random plans (did_open first, 1-5 further events: open/change/save/wait) with "
+         "cancel/drain schedules + a failing did_open (stray .sw file: the handler returns its look-up error) followed by "
+         "a request; then random plans (did_open first, 1-5 further events: open/change/save/wait/openstray+wait) with "
          "uniformly random scheduling choices, run to quiescence. agree = the hook trace is a run of the Lean model "
          "(configuration = shape of the code in the tree) and the model's end state matches the observed one; "
          "prop = quiescent => no waiter blocked (re-checked with a 10x window) and the programs cache of the shared "
@@ -46,10 +47,12 @@ SPEC = dict(
                   "hook H6 (sway-lsp/src/verif_sched.rs, verif_point! before each access) and the scheduler of "
                   "harness/src/bin/sv_c24.rs; quiescence is detected by a time window (0.7s quick / 1.5s thorough, "
                   "10x before a hang is reported)",
-                  "not modelled: shutdown_server (Terminate), handler errors before the send (no manifest), panics of "
+                  "modelled: handlers returning early from their fallible look-ups (`?` before anything is queued) and a "
+                  "failing did_change write; not modelled: shutdown_server (Terminate), panics of "
                   "the worker thread, sway-core's parse/typed module caches (C26), tower-lsp's dispatch"],
-    assumptions=["OpenedFirst: the first client event is a didOpen (LSP); needed for (a): C24_openedFirst_needed",
-                 "handlers that reach send_new_compilation_request do send (valid project, no IO error)",
+    assumptions=["OpenedFirst: the first client event is a didOpen of a file of a valid project (LSP); needed for (a): "
+                 "C24_openedFirst_needed (a first didOpen that fails leaves last_compilation_state Uninitialized)",
+                 "a did_change whose file write fails has written nothing (IO errors half-way are not modelled)",
                  "the compilation thread does not panic and compilations terminate",
                  "a compilation that completes reads the document as it is on disk at some point after it started "
                  "(sway-core's version-less cache reuse violates this on the real server: known finding "
